@@ -53,3 +53,6 @@ Definition storage_step (s : st) (o : sop) : st * line :=
 
 Definition check_storage (tr : list (line * line)) : verdict :=
   check_from dec_sop storage_step st_init tr 0.
+
+(* uniform entry point: configuration line (unused here) and the steps *)
+Definition chk_storage (_ : line) (tr : list (line * line)) : verdict := check_storage tr.
